@@ -116,7 +116,7 @@ class SmtLibCommand(namedtuple('SmtLibCommand', ['name', 'args'])):
                 option_name, value = a
                 if ":signed" != option_name:
                     outstream.write(" %s %s" % (option_name, value))
-                else:
+                elif value:
                     outstream.write(" %s " % option_name)
             outstream.write(")")
 
